@@ -99,6 +99,13 @@ func (rb *replayBuilder) structFields(lv string, ref Term, st types.Type, pkg *t
 			}
 		case *types.Slice:
 			rb.sliceValue(lv+"."+f.Name(), mkSelect(comp, ref), ft, u, pkg, true)
+		case *types.Pointer, *types.Map, *types.Interface, *types.Chan:
+			// heap objects behind this field cannot be built: refuse the replay if the model needs one
+			t := mkSelect(comp, ref)
+			if so == SIface {
+				t = iTag(t)
+			}
+			rb.setup = append(rb.setup, fmt.Sprintf("if %s != 0 { panic(\"verif-replay: the model needs an object behind %s.%s that the replay builder cannot construct\") }", rb.q(t, lv+"."+f.Name()+"(nil?)"), lv, f.Name()))
 		case *types.Signature:
 			// a non-nil function value where the model has one (its behaviour is a no-op)
 			if u.Results().Len() == 0 {
@@ -384,6 +391,8 @@ func (ex *Exec) tryReplay(o *Obligation, _ string, repo string, dir string) *Rep
 		res.Reason = "the generated test did not run (see output)"
 	case strings.Contains(res.Output, "verif-replay: slice shape"):
 		res.Reason = "the model uses a slice shape outside the replayable range"
+	case strings.Contains(res.Output, "verif-replay: the model needs"):
+		res.Reason = "the model's pre-state contains heap objects the replay builder cannot construct"
 	case o.Class == "safe":
 		res.Reproduced = panicked
 		if !panicked {
